@@ -48,7 +48,7 @@ def elem_kinds(g):
 
 
 NULL_OK = {"packed", "wide", "char", "wchar", "enum", "flag", "leb", "intstruct"}
-FORMS = ["fixed0", "fixed1", "fixedk", "expr", "exprneg", "exprconst", "exprsizeof", "null", "eof"]
+FORMS = ["fixed0", "fixed1", "fixedk", "expr", "exprneg", "exprconst", "exprsizeof", "exprenum", "null", "eof"]
 
 
 def matrix_case(rng, ek, form):
@@ -56,7 +56,31 @@ def matrix_case(rng, ek, form):
     kinds = elem_kinds(g)
     elem = kinds[ek]()
     fields = [F("n", N_int(rng.choice(["uint8", "int8"])), len_src=True), F("m", N_int("uint8"), len_src=True)]
-    if form == "fixed0":
+    src = rng.random()
+    if form in ("expr", "exprconst", "exprsizeof") and src < 0.45:
+        # the field that supplies the length is an enum / flag / enum bit-field / plain bit-field
+        if src < 0.3:
+            en = g.enum_node(base=rng.choice(["uint8", "uint16", "uint32"]), flag=src < 0.1)
+            fields[0] = F("n", en, len_src=True)
+        elif src < 0.38:
+            en = g.enum_node(base="uint8", flag=False)
+            fields[0] = F("n", en, bits=3)
+            fields.insert(1, F("npad", N_int("uint8"), bits=5))
+        else:
+            fields[0] = F("n", N_int("uint16"), bits=3)
+            fields.insert(1, F("npad", N_int("uint16"), bits=13))
+    if form == "exprenum":
+        # the bare name of an enum / flag / enum bit-field field is the length
+        which = rng.random()
+        if which < 0.4:
+            fields[0] = F("n", g.enum_node(base=rng.choice(["uint8", "uint16", "uint32", "int16"]), flag=False), len_src=True)
+        elif which < 0.7:
+            fields[0] = F("n", g.enum_node(base=rng.choice(["uint8", "uint16"]), flag=True), len_src=True)
+        else:
+            fields[0] = F("n", g.enum_node(base="uint8", flag=False), bits=3)
+            fields.insert(1, F("npad", N_int("uint8"), bits=5))
+        ln = L_expr("n")
+    elif form == "fixed0":
         ln = L_fixed(0)
     elif form == "fixed1":
         ln = L_fixed(1)
